@@ -21,7 +21,9 @@ RULE = ('(a) unchecked parents of ANY of the 441 classes with Hypothesis-drawn h
         'unchecked element stuffed with arbitrary children must serialise, with that child\'s content in insertion '
         'order; (d) the setting is per element: for every type, two elements born unchecked and later switched to '
         'checking: children added to the first are not visible in the second, which accepts, rejects and serialises '
-        'exactly like an element checked from the start; (e) nothing else is switched off: for all 441 classes, '
+        'exactly like an element checked from the start; for every (type, text-valued child) the child created by '
+        'xml_x = <value> under an unchecked parent has the same xsd_check, refuses children and serialises like the '
+        'one created under a checked parent; (e) nothing else is switched off: for all 441 classes, '
         'every sample value (valid and invalid, from the lexical oracle) and every attribute x sample value gets the '
         'same verdict (accepted / same exception type) from an unchecked as from a checked element, undeclared dot '
         'names are refused alike.  Non-trivial = a child sequence the checked twin rejects, or a mixed tree of depth>=3; distinct by '
@@ -225,6 +227,35 @@ def nothing_else(el):
     return None, n
 
 
+def shortcut_child(el, child):
+    """a child created by the xml_x = <plain value> shortcut under an UNCHECKED parent is an element of its own: it
+    checks itself exactly like the child the same shortcut creates under a checked parent"""
+    s = schema()
+    t = s.element_type[el]
+    v = driver.stub_value(child)
+    if v is None:
+        return None, 'no-value'
+    inp = {'mode': 'shortcut-child', 'element': el, 'child': child}
+    dot = 'xml_' + py_name(child)
+    obs = []
+    for checked in (True, False):
+        rp = call(fresh, el, checked)
+        if not rp.ok:
+            return None, 'unbuildable'
+        if not call(setattr, rp.value, dot, v).ok:
+            return None, 'shortcut-refused'       # (a structural refusal by a checked parent is not this layer's subject)
+        c = call(getattr, rp.value, dot).value
+        if c is None:
+            return None, 'shortcut-refused'
+        obs.append({'xsd_check': bool(c.xsd_check),
+                    'takes-a-child': call(c.add_child, stub('dot')).verdict()[0],
+                    'own-output': call(c.to_string).verdict()[0]})
+    if obs[0] != obs[1]:
+        return F('setting-not-per-element', t, inp, {'under checked parent': obs[0], 'under unchecked parent': obs[1]}), \
+            'compared'
+    return None, 'compared'
+
+
 # -- (c) mixed trees -------------------------------------------------------------------------------
 
 def nested_checked(el, wrappers, ops):
@@ -307,6 +338,8 @@ def replay_case(rec):
         return run_unchecked(inp['element'], inp['ops'])[0]
     if m == 'identity':
         return byte_identity(inp['element'], tuple(inp['word']))[0]
+    if m == 'shortcut-child':
+        return shortcut_child(inp['element'], inp['child'])[0]
     if m == 'nothing-else':
         return nothing_else(inp['element'])[0]
     if m == 'per-element':
@@ -341,6 +374,13 @@ def run_shard(ctx, shard, acc):
                 if f:
                     acc.fail(f, raise_=False)
         for t, els in shard['types']:
+            for a in s.alphabet(t):
+                f, status = shortcut_child(els[0], a)
+                acc.count('shortcut-child-' + status)
+                if status == 'compared':
+                    acc.case({'mode': 'shortcut-child', 'element': els[0], 'child': a}, True, 1)
+                if f:
+                    acc.fail(f, raise_=False)
             for w in s.dfa(t).enumerate(3, cap=6 if ctx.quick else 60):
                 if not w:
                     continue
